@@ -38,9 +38,16 @@ pub fn set_tt_off(on: bool) {
 }
 
 pub fn run_search(board: &Board, depth: Option<u8>, limits: Option<SearchLimits>) -> SearchResult {
+    run_search_with(board, depth, limits, |_| {})
+}
+
+/// `on_start` receives the search's running flag before the search begins (for stops that
+/// arrive from another thread).
+pub fn run_search_with(board: &Board, depth: Option<u8>, limits: Option<SearchLimits>, on_start: impl FnOnce(std::sync::Arc<std::sync::atomic::AtomicBool>)) -> SearchResult {
     let _ = drain_stdout();
     let mut res = SearchResult::default();
     let mut search = Search::new(board, limits);
+    on_start(search.running.clone());
     let r = guard(|| {
         search.search(&SimpleEvaluator, depth);
     });
